@@ -423,7 +423,7 @@ def fn(name, a):
         if a.op == "mul":
             # exp(t*(u+v)) : distribute so that exp(a+b) -> exp(a)*exp(b) applies
             fs = a.args[0]
-            hit = [(b, e) for b, e in fs if b.op == "add" and e == 1]
+            hit = [(b, e) for b, e in fs if b.op == "add" and e == 1 and not cis0(b.args[0])]      # only sums with a constant part
             if len(hit) == 1:
                 rest = ONE
                 for b, e in fs:
@@ -459,6 +459,10 @@ def fn(name, a):
     if name == "log":
         if a is ONE:
             return ZERO
+        ka, fa = _fac(a)
+        if fa and all(b.op == "fn" and b.args[0] == "exp" for b in fa) and not isinstance(ka, QS) and ka > 0 and (len(fa) > 1 or ka != 1 or next(iter(fa.values())) != 1):
+            REWRITES.add("log(c*prod exp(t_i)**e_i) -> log c + sum e_i*t_i  [c > 0]")
+            return addn([fn("log", const(ka))] + [scale(Fraction(e), b.args[1]) for b, e in fa.items()])
         if a.op == "fn" and a.args[0] == "exp":
             REWRITES.add("log(exp t) -> t")
             return a.args[1]
